@@ -49,7 +49,6 @@ Definition is_cc (b : N) : bool := match detect0 b with Some _ => true | None =>
 
 Definition enc_event (e : event) : sx :=
   let '(o, prod) := match e_out e with
-                    | OPanic => (sym "panic", 0)
                     | OUnsupported => (sym "unsupported", 0)
                     | OFail => (sym "fail", 0)
                     | OHit p => (sym "hit", p)
